@@ -8,7 +8,11 @@
 #
 import re
 
-from ural.patterns import QUERY_VALUE_IN_URL_TEMPLATE, PROTOCOL_RE
+from ural.patterns import (
+    QUERY_VALUE_IN_URL_TEMPLATE,
+    PROTOCOL_RE,
+    CONTROL_CHARS_RE,
+)
 from ural.utils import unquote, urljoin
 
 OBVIOUS_REDIRECTS_RE = re.compile(
@@ -16,7 +20,6 @@ OBVIOUS_REDIRECTS_RE = re.compile(
     % r"(?:redirect(?:_to)?|target|redir|next|link|orig|goto|url|[luq])",
     re.I,
 )
-LEADING_JUNK_RE = re.compile(r"^[\s\x00-\x1f\x7f-\x9f]+")
 AUTHORITY_RE = re.compile(r"^(?:[a-zA-Z][a-zA-Z0-9+.-]*:)?//[^/?#]*")
 REDIRECTION_DOMAINS_RE = re.compile(
     r"(?:\.ampproject\.org/[cv]/(?:s/)?|bc\.marfeelcache\.com/amp/|bc\.marfeel\.com/)",
@@ -75,9 +78,10 @@ def infer_redirection(url, recursive=True):
             # Basic relative url
             elif potential_target.startswith("/"):
                 # NOTE: urljoin drops the host of an url without protocol
-                # NOTE: nor do leading blanks or control characters hide the protocol
+                # NOTE: nor do blanks or control characters hide the protocol
+                # ("\thttp://a.com/...", "http:/\x00/a.com/...")
                 try:
-                    base = LEADING_JUNK_RE.sub("", url)
+                    base = CONTROL_CHARS_RE.sub("", url).strip()
 
                     if PROTOCOL_RE.match(base):
                         candidate = urljoin(base, potential_target)
